@@ -1,10 +1,12 @@
 """Subject module of check C22 (minimization never reduces coverage).
 
-Small on purpose: two functions with branches, one function that raises, one stateful class whose
-method ``step`` takes one of two arms OF EQUAL SIZE depending on how often the counter was bumped before
-(so that removing a call can exchange one covered arm for the other without changing the number of
-covered lines / branch outcomes; ``step`` bumps the counter itself, so the lines of ``bump`` stay covered).  No module-level mutable state: every execution of a test case
-is independent of the executions before it.
+Small on purpose: a function with three arms, a function whose two outcomes share ONE line (line
+coverage cannot tell them apart, branch coverage can), a function that raises, and a stateful class
+whose method ``step`` takes one of two arms OF EQUAL SIZE depending on how often the counter was bumped
+before (so that removing a call can exchange one covered arm for the other without changing the NUMBER
+of covered lines / branch outcomes; ``step`` bumps the counter itself, so the lines of ``bump`` stay
+covered).  No module-level mutable state: every execution of a test case is independent of the
+executions before it.
 """
 
 LIMIT = 5
@@ -21,9 +23,7 @@ def classify(x):
 
 
 def size(s):
-    if len(s) > 1:
-        return "long"
-    return "short"
+    return "long" if len(s) > 1 else "short"
 
 
 def check(x):
